@@ -127,6 +127,15 @@ def run_ops(case):
                     _, ip, rr, target = op
                     iso.add_symlink(ip, rr, target)
                     exp.add(ip, rr, 'symlink', 0, target)
+                elif what == 'refused_dir':
+                    # a call that must be refused (duplicate name) and leave everything as it was: the
+                    # link counts the independent reader finds afterwards are those of the tree without it
+                    _, ip, rr, mode = op
+                    try:
+                        iso.add_directory(ip, rr_name=rr, file_mode=mode)
+                    except pycdlib.pycdlibexception.PyCdlibInvalidInput:
+                        continue
+                    return None, exp, {'op': k, 'exc': 'Accepted', 'msg': 'a duplicate directory was accepted'}
                 elif what == 'rm_file':
                     iso.rm_file(op[1])
                     exp.rm(op[1])
@@ -581,6 +590,11 @@ def history_cases():
             cases.append({'id': 'hist-relocagain-' + tag, 'ver': ver, 'xa': xa, 'level': 3, 'family': 'history', 'ops': chain + [
                 ['dir', base + '/M1', 'moved-one', 0o040755], ['rm_dir', base + '/M1'],
                 ['dir', base + '/M2', 'moved-two', 0o040755], ['file', base + '/M2/F.;1', 'in-moved-two', 0o100644, 3]]})
+            # a duplicate of a relocated directory is refused and changes nothing (link counts!)
+            cases.append({'id': 'hist-relocdup-' + tag, 'ver': ver, 'xa': xa, 'level': 3, 'family': 'history', 'ops': chain + [
+                ['dir', base + '/M1', 'moved-one', 0o040755], ['refused_dir', base + '/M1', 'moved-again', 0o040755],
+                ['dir', base + '/M2', 'moved-two', 0o040755], ['refused_dir', base + '/M2', 'moved-two', 0o040555],
+                ['file', base + '/M2/F.;1', 'in-moved-two', 0o100644, 3]]})
             cases.append({'id': 'hist-relocempty-' + tag, 'ver': ver, 'xa': xa, 'level': 3, 'family': 'history', 'ops': chain + [
                 ['dir', base + '/M1', 'moved-one', 0o040755], ['rm_dir', base + '/M1'],
                 ['file', '/PLAIN.;1', 'plain', 0o100644, 4]]})
